@@ -1948,6 +1948,11 @@ fn sweep_bigtree(a: &Args) -> ! {
     if let Some(o) = a.get("only") {
         let p: Vec<u32> = o.split(',').map(|x| x.parse().unwrap()).collect();
         cases.push((p[0] as usize, p[1], p[2], p[3]));
+    } else if let Some(cs) = a.get("cases") {
+        for c in cs.split(';') {
+            let p: Vec<u32> = c.split(',').map(|x| x.parse().unwrap()).collect();
+            cases.push((p[0] as usize, p[1], p[2], p[3]));
+        }
     } else {
         let sizes: Vec<u32> = a.get("sizes").unwrap_or("500,1023,1024,1025,3000").split(',').map(|x| x.parse().unwrap()).collect();
         if a.num("hints", 0) > 0 {
@@ -2372,6 +2377,12 @@ fn sweep_bigk(a: &Args) -> ! {
     if let Some(o) = a.get("only") {
         let p: Vec<u32> = o.split(',').map(|x| x.parse().unwrap()).collect();
         cases.push((p[0] as usize, p[1], p[2], p[3]));
+    } else if let Some(cs) = a.get("cases") {
+        // explicit list "hint,n,order,pattern;..." (growth steps above 65536 slots and the like)
+        for c in cs.split(';') {
+            let p: Vec<u32> = c.split(',').map(|x| x.parse().unwrap()).collect();
+            cases.push((p[0] as usize, p[1], p[2], p[3]));
+        }
     } else {
         let sizes: Vec<u32> = a.get("sizes").unwrap_or("127,128,255,256,257,600,1500,4000").split(',').map(|x| x.parse().unwrap()).collect();
         for hint in 0..=a.num("hints", 0) as usize {
